@@ -583,11 +583,9 @@ _public_ int m_mod_set_tokenbucket(m_mod_t *mod, uint32_t rate, uint64_t burst) 
     M_MOD_ASSERT(mod);
     M_PARAM_ASSERT(rate <= BILLION);
 
-    // src_deregister and src_register already consume a token
-
     /* If it was already set, remove old timer */
     if (mod->tb.timer.ns != 0) {
-        m_mod_src_deregister_tmr(mod, &mod->tb.timer);
+        deregister_mod_src_priv(mod, M_SRC_TYPE_TMR, &mod->tb.timer, &mod->tb);
     }
     
     // Rate 0 -> disable tb
@@ -605,7 +603,7 @@ _public_ int m_mod_set_tokenbucket(m_mod_t *mod, uint32_t rate, uint64_t burst) 
     mod->tb.tokens = burst;
     mod->tb.timer.clock_id = CLOCK_MONOTONIC;
     mod->tb.timer.ns = BILLION / rate;
-    return m_mod_src_register_tmr(mod, &mod->tb.timer, M_SRC_INTERNAL | M_SRC_PRIO_HIGH, &mod->tb);
+    return register_mod_src_priv(mod, M_SRC_TYPE_TMR, &mod->tb.timer, M_SRC_INTERNAL | M_SRC_PRIO_HIGH, &mod->tb);
 }
 
 _public_ __attribute__((format (printf, 2, 3))) int m_mod_log(const m_mod_t *mod, const char *fmt, ...) {
